@@ -10,7 +10,7 @@
      DE / ED : decryption and encryption under one key are mutually inverse.
    At run time these functions are answered by crypto/aes (stdlib oracle). *)
 From Coq Require Import List NArith Bool Arith Lia.
-From Tink Require Import Bytes Cmac CmacProofs Siv SivProofs Kwp KwpProofs.
+From Tink Require Import Bytes Cmac CmacProofs Siv SivProofs Kwp KwpProofs KwpProofs2.
 Import ListNotations.
 Open Scope N_scope.
 
@@ -258,4 +258,108 @@ Proof.
   - intros b _. apply rev_involutive.
   - intros b H. apply Forall_rev. exact H.
   - vm_compute. repeat split; reflexivity.
+Qed.
+
+(* ===================== second round: KEK sizes, totality ===================== *)
+(* proofs/KwpProofs2.v *)
+
+(* NewKWP accepts exactly 16- and 32-byte wrapping keys: AES-192 keys (24
+   bytes), which crypto/aes itself would take, and every other size are
+   refused. *)
+Theorem C08_kwp_kek_size_rule :
+  (forall n, kwp_key_ok n = true <-> n = 16%nat \/ n = 32%nat) /\ kwp_key_ok 24 = false.
+Proof. split; [exact kwp_key_ok_iff|reflexivity]. Qed.
+Print Assumptions C08_kwp_kek_size_rule.
+
+(* Wrap is total for EVERY block function (no law at all): never a panic,
+   an error exactly for sizes outside 16..8192. *)
+Theorem C08_kwp_wrap_total_exact_errors :
+  forall (E : bytes -> bytes) d,
+    kwp_wrap E d <> Panic /\
+    (kwp_wrap E d = Err <-> N.of_nat (length d) < 16 \/ 8192 < N.of_nat (length d)) /\
+    (16 <= N.of_nat (length d) <= 8192 -> exists c, kwp_wrap E d = Ok c).
+Proof. exact kwp_wrap_total. Qed.
+Print Assumptions C08_kwp_wrap_total_exact_errors.
+
+(* Unwrap is total assuming ONLY that block decryption returns 16 bytes (no
+   inverse law, no byte-range law; C08_kwp_unwrap_never_panics needed five
+   laws): for every input it returns a key or an error, and the errors are
+   exactly: shorter than 24, longer than 8200, not a multiple of 8, or the
+   integrity check of u = W^-1(c) fails (first four bytes <> A65959A6, or
+   wrappingSize(length field) <> |u|, or a non-zero padding byte). *)
+Theorem C08_kwp_unwrap_total_exact_errors :
+  forall (D : bytes -> bytes),
+    (forall b, length b = 16%nat -> length (D b) = 16%nat) ->
+    forall c,
+      kwp_unwrap D c <> Panic /\
+      (kwp_unwrap D c = Err <->
+         N.of_nat (length c) < 24 \/ 8200 < N.of_nat (length c) \/ (length c mod 8 <> 0)%nat \/
+         exists u, invertW D c = Ok u /\ ~ integrity_ok u) /\
+      (forall d, kwp_unwrap D c = Ok d <->
+         24 <= N.of_nat (length c) <= 8200 /\ (length c mod 8 = 0)%nat /\
+         exists u, invertW D c = Ok u /\ integrity_ok u /\
+                   d = firstn (N.to_nat (be_val (firstn 4 (skipn 4 u)))) (skipn 8 u)).
+Proof. exact kwp_unwrap_total. Qed.
+Print Assumptions C08_kwp_unwrap_total_exact_errors.
+
+(* W^-1 is defined on every well-sized input, and whatever Unwrap returns has
+   9..8192 bytes and the wrapping size of the input *)
+Theorem C08_kwp_invertW_total_and_unwrapped_length :
+  forall (D : bytes -> bytes),
+    (forall b, length b = 16%nat -> length (D b) = 16%nat) ->
+    forall c,
+      ((24 <= length c)%nat -> (length c mod 8 = 0)%nat -> exists u, invertW D c = Ok u /\ length u = length c) /\
+      (forall d, kwp_unwrap D c = Ok d ->
+         9 <= N.of_nat (length d) <= 8192 /\ wrappingSize (length d) = length c).
+Proof.
+  intros D Dl c. split; [apply invertW_total; exact Dl|]. intros d. apply kwp_unwrap_ok_length. exact Dl.
+Qed.
+Print Assumptions C08_kwp_invertW_total_and_unwrapped_length.
+
+(* The API as a function of the KEK bytes (NewKWP, then Wrap / Unwrap): no
+   primitive for any KEK size other than 16 / 32; for every accepted KEK and
+   every input of every length both operations return a value or an error,
+   with the error sets above.  AES is any pair of key -> block -> block
+   functions whose decryption returns 16 bytes under 16- and 32-byte keys. *)
+Theorem C08_kwp_api_total_for_every_accepted_kek :
+  forall (AESenc AESdec : bytes -> bytes -> bytes),
+    (forall k b, (length k = 16 \/ length k = 32)%nat -> length b = 16%nat -> length (AESdec k b) = 16%nat) ->
+    forall kek data,
+      ((length kek <> 16 /\ length kek <> 32)%nat ->
+         kwp_api_wrap AESenc kek data = None /\ kwp_api_unwrap AESdec kek data = None) /\
+      ((length kek = 16 \/ length kek = 32)%nat ->
+         (exists r, kwp_api_wrap AESenc kek data = Some r /\ r <> Panic /\
+            (r = Err <-> N.of_nat (length data) < 16 \/ 8192 < N.of_nat (length data))) /\
+         (exists r, kwp_api_unwrap AESdec kek data = Some r /\ r <> Panic /\
+            (r = Err <->
+               N.of_nat (length data) < 24 \/ 8200 < N.of_nat (length data) \/ (length data mod 8 <> 0)%nat \/
+               exists u, invertW (AESdec kek) data = Ok u /\ ~ integrity_ok u))).
+Proof. exact kwp_api_total. Qed.
+Print Assumptions C08_kwp_api_total_for_every_accepted_kek.
+
+(* the premises are inhabited; each kind of error occurs *)
+Definition toyAESblk (k b : bytes) : bytes := rev b.
+
+Example C08_kwp_api_premises_inhabited :
+  (forall k b, (length k = 16 \/ length k = 32)%nat -> length b = 16%nat -> length (toyAESblk k b) = 16%nat) /\
+  (let d := map N.of_nat (seq 100 17) in
+   let c := match kwp_wrap toyE d with Ok c => c | _ => [] end in
+   kwp_api_wrap toyAESblk (zeros 16) d = Some (Ok c) /\
+   kwp_api_unwrap toyAESblk (zeros 32) c = Some (Ok d) /\
+   kwp_api_wrap toyAESblk (zeros 24) d = None /\ kwp_api_unwrap toyAESblk (zeros 24) c = None /\
+   kwp_api_wrap toyAESblk (zeros 0) d = None /\ kwp_api_wrap toyAESblk (zeros 33) d = None /\
+   (* Wrap errors *)
+   kwp_api_wrap toyAESblk (zeros 16) (zeros 15) = Some Err /\
+   kwp_api_wrap toyAESblk (zeros 16) (zeros (4096 + 4097)) = Some Err /\
+   (* Unwrap errors: too short, not a multiple of 8, too long, integrity *)
+   kwp_api_unwrap toyAESblk (zeros 16) (firstn 16 c) = Some Err /\
+   kwp_api_unwrap toyAESblk (zeros 16) (c ++ [0]) = Some Err /\
+   kwp_api_unwrap toyAESblk (zeros 16) (zeros (4104 + 4104)) = Some Err /\
+   kwp_api_unwrap toyAESblk (zeros 16) (zeros 32) = Some Err /\
+   (exists u, invertW toyE (zeros 32) = Ok u /\ ~ integrity_ok u)).
+Proof.
+  split.
+  - intros k b _ H. unfold toyAESblk. rewrite rev_length. exact H.
+  - cbv zeta. repeat split; try (vm_compute; reflexivity).
+    eexists. split; [vm_compute; reflexivity|]. intros [H _]. vm_compute in H. discriminate.
 Qed.
